@@ -172,6 +172,10 @@ func evalClause(s *slip.Scope, clause slip.List, v any, depth int) (result slip.
 	}
 	for i := 2; i < len(clause); i++ {
 		result = slip.EvalArg(ns, clause, i, depth)
+		switch result.(type) {
+		case *slip.ReturnResult, *slip.GoTo:
+			return
+		}
 	}
 	return
 }
